@@ -41,7 +41,10 @@ def place(rng, n, lmax, tol):
             u = np.array([rng.gauss(0, 1) for _ in range(3)])
             u /= np.linalg.norm(u)
             c = list(np.array(ref.center) + d * u)
-        specs.append(s.copy(center=[float(x) for x in c]))
+        # atom labels as concatenated make_contractions fragments produce them: numbered from 0 in every fragment, so that shells on
+        # different centres can carry the same `icenter` (the label is bookkeeping; only the distance decides the screening)
+        ic = None if n % 2 else (i % 2 if i else 0)
+        specs.append(s.copy(center=[float(x) for x in c], icenter=ic))
     return specs
 
 
